@@ -293,9 +293,7 @@ def lint_gates():
     for st in _body(f):
         if isinstance(st, ast.If) and not st.orelse and len(st.body) == 1 and ast.unparse(st.body[0]) == "return []":
             t = ast.unparse(st.test)
-            gates.append({"_is_hardcoded_excluded(self._path_inside_project(file_path))": "GHard",      # decided on the project-relative path
-                          "_is_hardcoded_excluded(file_path)": "GHardAbs",                                 # decided on the path as given (absolute: parents included)
-                          "self.ignore_parser.is_ignored(file_path)": "GIgnored"}.get(t, "GOther"))
+            gates.append(GATE_EXPRS.get(t, "GOther"))
         else:
             break
     rest = [ast.unparse(s) for s in _body(f)[len(gates):]]
@@ -480,6 +478,39 @@ def collect_call_args():
     return out
 
 
+GATE_EXPRS = {"_is_hardcoded_excluded(self._path_inside_project(file_path))": "GHard",      # decided on the project-relative path
+              "_is_hardcoded_excluded(file_path)": "GHardAbs",                                 # decided on the path as given (absolute: parents included)
+              "self.ignore_parser.is_ignored(file_path)": "GIgnored"}
+
+
+def par_evidence_gates():
+    """lint_files_parallel: after the workers, the parent feeds every collected file to the cross-file rules (those with their own
+    finalize) -- except the files that these gates stop (`if <gate> or <gate>: continue`)"""
+    cls = find_class(parse(CORE), "Orchestrator")
+    lfp = [ast.unparse(x) for x in _body(find_func(cls, "lint_files_parallel"))]
+    want_tail = ["violations = self._execute_parallel_linting(file_paths, effective_workers)", "self._collect_cross_file_evidence(file_paths)",
+                 "violations.extend(self._finalize_rules())", "return violations"]
+    if lfp[-4:] != want_tail:
+        raise Unsupported("lint_files_parallel: tail changed")
+    f = find_func(cls, "_collect_cross_file_evidence")
+    _params(f, ["self", "file_paths"])
+    loops = [st for st in _body(f) if isinstance(st, ast.For)]
+    if len(loops) != 1 or ast.unparse(loops[0].target) != "file_path" or ast.unparse(loops[0].iter) != "file_paths" or loops[0].orelse:
+        raise Unsupported("_collect_cross_file_evidence: loop")
+    body = loops[0].body
+    gates = []
+    if body and isinstance(body[0], ast.If) and not body[0].orelse and [ast.unparse(x) for x in body[0].body] == ["continue"]:
+        t = body[0].test
+        parts = t.values if isinstance(t, ast.BoolOp) and isinstance(t.op, ast.Or) else [t]
+        gates = [GATE_EXPRS.get(ast.unparse(x), "GOther") for x in parts]
+        body = body[1:]
+    rest = [ast.unparse(x) for x in body]
+    if rest != ["metadata = {**self.config, '_project_root': self.project_root}",
+                "context = FileLintContext(file_path, detect_language(file_path), metadata=metadata)", "self._execute_rules(rules, context)"]:
+        raise Unsupported("_collect_cross_file_evidence: loop body changed")
+    return defn("par_evidence_gates", "list gate", "[" + "; ".join(gates) + "]")
+
+
 def ignore_cache():
     """the memo of IgnoreDirectiveParser.is_ignored (Model/CollectCache.v): created per parser instance in __init__, looked up and
     filled under the same key, the key is the string of the path object that is also the source of check_path"""
@@ -558,6 +589,7 @@ ITEMS = [
     ("lint_gates", lint_gates),
     ("is_ignored_core", is_ignored),
     ("ignore_cache", ignore_cache),
+    ("par_evidence_gates", par_evidence_gates),
     ("matches_pattern", matches_pattern),
     ("extract_patterns", extract_patterns),
     ("repo_ignore_sources", repo_ignore_sources),
